@@ -848,6 +848,12 @@ def _execute(plan, out, scratch):
                                                      err.getvalue()[-200:])}
             finally:
                 sys.stdin, sys.stdout, sys.stderr = old
+            # which of the resources of this run are the files named on the
+            # command line (the schema's own resources come first)
+            cfg_res = [i for i, (_r, _f, u) in enumerate(w.resources)
+                       if isinstance(u, str) and any(
+                           urllib.parse.unquote(u).endswith(p_)
+                           for p_ in paths)]
             w.end_op("done")
             del w.warnings[:]
             out["evaluations"] += 1
@@ -875,6 +881,50 @@ def _execute(plan, out, scratch):
                               % (w.norm(got_err)[:300],
                                  w.norm(want_err)[:300]),
                               {"cls": None, "site": "validator.py:main"})
+                # fault injection: one of the files cannot be read from some
+                # line on (an I/O error of the disk it lives on): an invalid
+                # file like any other -- status 1 and messages, no traceback
+                victim = cfg_res[plan.get("run_seed", 0) % len(cfg_res)] \
+                    if cfg_res else 10 ** 6
+                w.begin_op("validator-main-eio", [
+                    {"seam": "line", "res": victim,
+                     "at": (plan.get("run_seed", 0) // 7) % 3,
+                     "kind": "line-eio"}])
+                err4 = io.StringIO()
+                fake4 = io.StringIO("")
+                fake4.isatty = lambda: True
+                old4 = sys.stdin, sys.stdout, sys.stderr
+                sys.stdin, sys.stdout, sys.stderr = fake4, io.StringIO(), err4
+                try:
+                    vo4 = ops.guarded(lambda: {
+                        "ok": True, "status": ZConfig.validator.main(
+                            ["-s", spath] + paths)})
+                except SystemExit as e:
+                    vo4 = {"ok": False, "cls": "SystemExit", "cfgerr": False,
+                           "site": "validator.py:main", "raised_in": None,
+                           "msg": "SystemExit(%r)" % (e.code,)}
+                finally:
+                    sys.stdin, sys.stdout, sys.stderr = old4
+                fired4 = w.op_fired
+                w.end_op("done")
+                del w.warnings[:]
+                out["evaluations"] += 1
+                if fired4:
+                    out["fired"]["validator-file-read-eio"] = out[
+                        "fired"].get("validator-file-read-eio", 0) + 1
+                    if not vo4["ok"]:
+                        violation("validator-raised",
+                                  "validator.main with a file that cannot "
+                                  "be read (I/O error while reading it) "
+                                  "raised %s" % ops.brief(vo4),
+                                  {"cls": vo4["cls"], "site": vo4.get("site"),
+                                   "raised_in": vo4.get("raised_in")})
+                    elif vo4["status"] != 1 or not err4.getvalue().strip():
+                        violation("validator-status",
+                                  "validator.main with an unreadable file "
+                                  "returned %r, stderr %r"
+                                  % (vo4["status"], err4.getvalue()[:200]),
+                                  {"cls": None, "site": "validator.py:main"})
                 # no file arguments and standard input that is not a
                 # terminal: standard input is the configuration
                 with open(paths[0], encoding="utf-8",
